@@ -31,6 +31,6 @@ def run(tier, seed):
         "obligation; functions are strict (may write only per-call objects and the caller's env) unless they are configuration API/constructors; the "
         "single instance write on the parse path is Ruler.__cache__ whose value is determined by __rules__ (C11). No function writes module state; no "
         "global/setattr/__dict__/mutable default/mutable class attribute. Hence the result is a function of (configuration, src, env).")
-    rep.trusted_base = ["the region table of vf/frame.py (classes -> CALL/MD/ENV, fresh constructors)", "re, str, mdurl, html.entities are deterministic and stateless"]
-    rep.assumptions = ["plugins and user callbacks do not write instance state behind the API", "functools.cache on _terminator_char_regex is a content-pure memo"]
+    rep.trusted_base += ["the region table of vf/frame.py (classes -> CALL/MD/ENV, fresh constructors)", "re, str, mdurl, html.entities are deterministic and stateless"]
+    rep.assumptions += ["plugins and user callbacks do not write instance state behind the API", "functools.cache on _terminator_char_regex is a content-pure memo"]
     return rep
